@@ -30,6 +30,10 @@ def run(ctx, rep) -> None:
         raise MachineryFailure(f'negative configuration should violate PermanentEndsIt, got {r.violated}')
     rep.extra['negative_config'] = 'MC_Timers_neg (PermStops=FALSE): PermanentEndsIt violated, as required'
     scs = T.gen_scenarios(ctx.seed, 250 if ctx.quick else 6000)
+    # no change-detecting handler at all (so no diff-base is ever stored) and a timer that returns a result: family F6
+    scs += [{'id': f'timer-nochange-{k}', 'conf': {'interval': iv, 'sharp': False, 'idle': idle, 'initdelay': 0, 'backoff': 1},
+             'runs': [(0, 'ok', 0)] * 8, 'changes': ch, 'delete_at': None, 'end': 60, 'change_handlers': False, 'result': True}
+            for k, (iv, idle, ch) in enumerate([(3, 10, []), (2, 4, [9]), (3, 6, [])])]
     with ProcessPoolExecutor(16) as ex:
         traces = list(ex.map(T.run_scenario, scs, chunksize=4))
     verdicts = T.judge(traces, rep)
@@ -44,4 +48,7 @@ def run(ctx, rep) -> None:
             rep.violation(f'{t["id"]}: the event loop stalled (a coroutine spins without yielding)', payload=t)
         elif verdicts[t['id']]['verdict'] != 'accepted':
             rep.violation(f'{t["id"]}: {verdicts[t["id"]]["verdict"]}', payload=t)
+        elif verdicts[t['id']].get('family', 'none') != 'none':
+            rep.classified(verdicts[t['id']]['family'], f'{t["id"]}: the idle period was restarted by an event that is not a change '
+                           f'(starts at {[e["t"] for e in t["events"] if e["ev"] == "start"]})', payload=t)
     rep.sample({'scenario': traces[3]['scenario'], 'trace': traces[3]['events'][:14]})
